@@ -321,6 +321,16 @@ pub fn c09(ctx: &mut Ctx) {
             ctx.rep.sample(format!("PATH s3={} \"{}\"", s3, show(&p1)));
         }
     }
+    // long paths over the segment alphabet (deeper dot-segment nesting than the exhaustive part reaches)
+    for _ in 0..n {
+        let nseg = 5 + rng.below(10);
+        let mut p = Vec::new();
+        for _ in 0..nseg {
+            p.push(b'/');
+            p.extend_from_slice(*rng.pick(&[&b"a"[..], b"b", b".", b"..", b"..", b"%2e", b"%2E%2e", b"", b"c%2Fd", b"~"]));
+        }
+        tris.push(path_tri(&p, rng.chance(1, 4)));
+    }
     // alphabet-directed malformed strings
     for _ in 0..n {
         let l = rng.below(14);
